@@ -27,8 +27,9 @@
  * Not demanded: empty or zero-padded length fields are read as numbers; a package without
  * recipients gets no reply and is not queued (both accepted); a bare CR in CR LF mode is
  * stored as it is.
- * Only the first package of a connection is compared in full; inside the bound a second
- * package can never be completed, which is itself checked. */
+ * The connection carries at most one package: once the daemon has closed its queue
+ * connection the read() stub reports that the client has gone (so the bytes of in[] behind
+ * a complete package are never delivered); several packages per connection are outside. */
 #include "verif.h"
 #ifdef TEMPLATE
 #include "qmtp_template.h"
@@ -50,7 +51,7 @@ unsigned char qstatus;          /* qmail-queue outcome: 0 exit 0, 1 permanent, 2
 unsigned int wfail_at;          /* index of the qmail_put/from/to call whose write fails */
 unsigned char open_fails, init_fails;
 unsigned char have_relay;       /* RELAYCLIENT set (to "@r") */
-signed char rh[MAXR];           /* verdict of the k-th rcpthosts() call: 1, 0, -1 */
+signed char rh[MAXR];           /* verdict of rcpthosts() for recipient i, if asked: 1, 0, -1 */
 
 void sym_inputs(void)
 {
@@ -139,6 +140,7 @@ static void ref_parse(void)
     R.roff[k] = p2; R.rlen[k] = (unsigned int) l; R.nr = k + 1;
     q = p2 + (unsigned int) l + 1;
   }
+  CHECK(q >= end, "harness sizing: more recipients than MAXR");
   if (q != end) return;
   R.status = 2;
 }
